@@ -108,3 +108,52 @@ def c15_m_with_time_in_range(o):
     o.reachable("headroom_receiver", z3.And(y.e == c03.MAXY, d.e == 365, ts + off.e >= DAY))
     o.reachable("single", single)
     o.claim("single_result_is_in_range", z3.Implies(single, z3.And(Yr >= c03.MINY, Yr <= c03.MAXY)))
+
+
+OKR = lambda: EnumV("Result", 0, {0: [Agg("tuple", "()", [])]})
+
+
+def writer_sink_contracts(o):
+    """the `impl fmt::Write` sink is a String: pushing text cannot fail; everything else in the writer is executed"""
+    o.summarize_raw(r"<impl Write as (std::fmt::)?Write>::write_(char|str|fmt)$", lambda ex, st, a: (st, OKR()))
+    o.summarize_raw(r"^<String as (std::fmt::)?Write>::write_(char|str|fmt)$", lambda ex, st, a: (st, OKR()))
+    o.summarize_raw(r"^(core::fmt::rt::)?Argument::<'_>::new_(display|debug)::<", lambda ex, st, a: (st, OpaqueV("fmt argument")))
+    o.summarize_raw(r"^(std::fmt::|core::fmt::)?Arguments::<'_>::new(_const)?::<", lambda ex, st, a: (st, OpaqueV("fmt arguments")))
+
+
+@obligation(prop="C15", tier="quick", timeout=900, probe="rfc3339_writer_ok",
+            desc="the RFC 3339 writer behind to_rfc3339 / to_rfc3339_opts / %+ / serde (`write_rfc3339`, whose Err is turned into a panic by `.expect` in to_rfc3339*) returns Ok for EVERY wall-clock date-time (all years incl. 10000 and negative ones, leap seconds), EVERY offset and every documented SecondsFormat: no digit-pair helper is ever handed a value >= 100, no arithmetic overflows",
+            bounds="all dates x all times of day (leap incl.) x all offsets in (-24h, 24h) x {Secs, Millis, Micros, Nanos, AutoSi} x use_z; the String sink (write_char / write_str / write_fmt) is a contract that returns Ok; NaiveDate::month()/day() through their range contract (decided by K:c01_*)",
+            outside="the text produced (C10); SecondsFormat::__NonExhaustive (doc-hidden, documented to panic)")
+def c15_m_rfc3339_writer_ok(o):
+    writer_sink_contracts(o)
+
+    def md_contract(lo, hi, nm):
+        def f(ex, st, a):
+            v = ex.fresh(nm)
+            ex.side.append(z3.And(v >= lo, v <= hi))
+            return st, IntV(v, "u32")
+        return f
+    # month()/day() go through the Mdf bit tables (BitOr of overlapping fields: Engine K's domain); their contract
+    # "month in 1..=12, day in 1..=31" is what K:c01_ymd_valid_iff / c01_yo_valid_iff decide against the reference calendar
+    o.summarize_raw(r"^<NaiveDate as Datelike>::month$", md_contract(1, 12, "month"))
+    o.summarize_raw(r"^<NaiveDate as Datelike>::day$", md_contract(1, 31, "day"))
+    y, d, date = c03.date_input(o, "")
+    t, ts, tf = c07.time_input(o, "")
+    off = o.input("off", "i32")
+    o.require(z3.And(off.e > -DAY, off.e < DAY))
+    sf = o.input("sf", "isize")
+    o.require(z3.And(sf.e >= 0, sf.e <= 4))
+    uzi = o.input("use_z", "u8")
+    o.require(uzi.e <= 1)
+    uz = BoolV(uzi.e == 1)
+    ndt = Agg("struct", "NaiveDateTime", [date, t])
+    fo = Agg("struct", "FixedOffset", [off])
+    r = o.call("format::formatting::write_rfc3339", OpaqueV("String sink"), ndt, fo, EnumV("SecondsFormat", sf.e), uz, name="write")
+    ok = r.disc == 0
+    o.flat = [z3.If(ok, 1, 0)]
+    o.no_panic()
+    o.reachable("year_10000", y.e == 10000)
+    o.reachable("negative_year", y.e < 0)
+    o.reachable("leap_second", tf >= G)
+    o.claim("writer_returns_ok", ok)
